@@ -89,6 +89,8 @@ async def open_unix_server_transport(spec: str) -> Transport:
             peer_name = transport.get_extra_info('peer_name')
             logger.debug('connection from %s', peer_name)
             self.packet_sink.transport = transport
+            # A new client starts a new stream, whatever the previous one left behind
+            self.packet_source.parser.reset()
 
         # Called when the client is disconnected
         def connection_lost(self, error):
